@@ -262,6 +262,9 @@ struct BodyV<'a, 'b> {
     used_text_closures: HashSet<String>,
     closure_ctx: Vec<String>,
     closure_rewritten: bool,
+    call_counts: HashMap<String, usize>,
+    calls_seen: Vec<String>,
+    claimed_hints: HashSet<usize>,
     closure_counts: HashMap<String, usize>,
 }
 
@@ -511,12 +514,22 @@ impl<'a, 'b> BodyV<'a, 'b> {
         }
     }
 
+    fn note_call(&mut self, name: &str) {
+        let c = self.call_counts.entry(name.to_string()).or_insert(0);
+        *c += 1;
+        let key = format!("{}#{}", name, *c);
+        self.calls_seen.push(key);
+    }
+
     fn visit_call_parts(&mut self, e: &ExprCall) {
         self.visit_expr(&e.func);
         let name = match &*e.func {
             Expr::Path(ep) => ep.path.segments.last().map(|s| s.ident.to_string()).unwrap_or_default(),
             _ => String::new(),
         };
+        if !name.is_empty() {
+            self.note_call(&name);
+        }
         for a in e.args.iter() {
             let is_closure = matches!(a, Expr::Closure(_));
             if is_closure {
@@ -708,6 +721,44 @@ impl<'a, 'b, 'ast> Visit<'ast> for BodyV<'a, 'b> {
 
     fn visit_expr_method_call(&mut self, e: &'ast ExprMethodCall) {
         let name = e.method.to_string();
+        // R19: `X[a..b].copy_from_slice(src)` -> crate::shims::slices::copy_into(&mut *X, a, b, src [, world])
+        if name == "copy_from_slice" && e.args.len() == 1 {
+            if let Expr::Index(ix) = &*e.receiver {
+                if let Expr::Range(rg) = &*ix.index {
+                    if matches!(rg.limits, RangeLimits::HalfOpen(_)) && rg.end.is_some() {
+                        let whole = range_of(e);
+                        let base = range_of(&*ix.expr);
+                        let endr = range_of(&**rg.end.as_ref().unwrap());
+                        let arg = range_of(&e.args[0]);
+                        let warg = match self.world.as_str() {
+                            "mut" => ", Tracked(w)",
+                            _ => "",
+                        };
+                        if self.world != "mut" {
+                            self.fc.errors.push(format!("unit {}: R19 copy into a mapping needs a mutable ghost world", self.outer_name));
+                        }
+                        self.fc.edit(whole.0, base.0, "crate::shims::slices::copy_into(&mut *", "R19.copy_into");
+                        match &rg.start {
+                            Some(st) => {
+                                let sr = range_of(&**st);
+                                self.fc.edit(base.1, sr.0, ", ", "R19.copy_into");
+                                self.fc.edit(sr.1, endr.0, ", ", "R19.copy_into");
+                                self.visit_expr(st);
+                            }
+                            None => {
+                                self.fc.edit(base.1, endr.0, ", 0, ", "R19.copy_into");
+                            }
+                        }
+                        self.fc.edit(endr.1, arg.0, ", ", "R19.copy_into");
+                        self.fc.edit(arg.1, whole.1, format!("{warg})"), "R19.copy_into");
+                        self.visit_expr(&ix.expr);
+                        self.visit_expr(rg.end.as_ref().unwrap());
+                        self.visit_expr(&e.args[0]);
+                        return;
+                    }
+                }
+            }
+        }
         // R10 iterator entry points
         if let Some(newname) = self.fc.cfg.iter_renames.get(&name).cloned() {
             let r = br(e.method.span());
@@ -736,6 +787,7 @@ impl<'a, 'b, 'ast> Visit<'ast> for BodyV<'a, 'b> {
             }
         }
         let opaque = self.fc.cfg.opaque_fmt_in.contains(&name);
+        self.note_call(&name);
         self.visit_expr(&e.receiver);
         if let Some(t) = &e.turbofish {
             self.visit_angle_bracketed_generic_arguments(t);
@@ -959,13 +1011,23 @@ impl<'a, 'b, 'ast> Visit<'ast> for BodyV<'a, 'b> {
     }
 
     fn visit_stmt(&mut self, s: &'ast Stmt) {
-        // hints anchored on statements
+        // hints anchored on the (innermost) statement that contains the k-th call of a name:
+        //   anchor "call <name>#<k>"
+        let seen_before = self.calls_seen.len();
+        visit::visit_stmt(self, s);
         if let Some(u) = self.unit.clone() {
             let r = range_of(s);
-            let text = self.fc.text(r).trim_start().to_string();
-            for h in &u.hints {
+            for (hi, h) in u.hints.iter().enumerate() {
+                if self.claimed_hints.contains(&hi) {
+                    continue;
+                }
                 let anchor = jstr(h, "anchor");
-                if !anchor.is_empty() && text.starts_with(&anchor) {
+                let key = match anchor.strip_prefix("call ") {
+                    Some(k) => k.trim().to_string(),
+                    None => continue,
+                };
+                if self.calls_seen[seen_before..].iter().any(|c| *c == key) {
+                    self.claimed_hints.insert(hi);
                     let wh = jstr(h, "where");
                     let t = jstr(h, "text");
                     if wh == "after" {
@@ -977,7 +1039,6 @@ impl<'a, 'b, 'ast> Visit<'ast> for BodyV<'a, 'b> {
                 }
             }
         }
-        visit::visit_stmt(self, s);
     }
 }
 
@@ -1209,6 +1270,9 @@ fn process_fn(
                         used_text_closures: HashSet::new(),
                         closure_ctx: Vec::new(),
                         closure_rewritten: false,
+                        call_counts: HashMap::new(),
+                        calls_seen: Vec::new(),
+                        claimed_hints: HashSet::new(),
                         closure_counts: HashMap::new(),
     };
     for inp in sig.inputs.iter() {
@@ -1521,7 +1585,7 @@ fn main() {
             for item in &file.items {
                 match item {
                     Item::Fn(f) => {
-                        if units.contains_key(&format!("fn:{}", f.sig.ident)) {
+                        if units.get(&format!("fn:{}", f.sig.ident)).map(|u| !u.drop_body).unwrap_or(false) {
                             collect_idents_fn(f, &mut seen);
                         }
                     }
@@ -1529,7 +1593,7 @@ fn main() {
                         let key = impl_key(im);
                         for ii in &im.items {
                             if let ImplItem::Fn(m) = ii {
-                                if units.contains_key(&format!("impl:{}/{}", key, m.sig.ident)) {
+                                if units.get(&format!("impl:{}/{}", key, m.sig.ident)).map(|u| !u.drop_body).unwrap_or(false) {
                                     collect_idents_method(m, &mut seen);
                                 }
                             }
@@ -1692,6 +1756,9 @@ fn main() {
                         used_text_closures: HashSet::new(),
                         closure_ctx: Vec::new(),
                         closure_rewritten: false,
+                        call_counts: HashMap::new(),
+                        calls_seen: Vec::new(),
+                        claimed_hints: HashSet::new(),
                         closure_counts: HashMap::new(),
                     };
                     match item {
@@ -1864,6 +1931,9 @@ fn main() {
                         used_text_closures: HashSet::new(),
                         closure_ctx: Vec::new(),
                         closure_rewritten: false,
+                        call_counts: HashMap::new(),
+                        calls_seen: Vec::new(),
+                        claimed_hints: HashSet::new(),
                         closure_counts: HashMap::new(),
                         };
                         bv.visit_type(&im.self_ty);
